@@ -188,6 +188,7 @@ class C06(HistoryCampaign):
             sc = gen_history(rnd, self.flavor)
             sc.pop("faults", None)
         sc["seed"] = rnd.choice(SEEDS)
+        sc["seed_kind"] = rnd.choice(["int", "int", "int", "np.int64", "np.uint64", "np.uint32"])
         files = {"logging_interval": rnd.choice([1, 1, 2])}
         if rnd.random() < 0.8:
             files["logfile"] = {"name": "log.txt", "as": "object", "mode": "a"}
@@ -254,6 +255,7 @@ class C06(HistoryCampaign):
         if random_dependent:
             sc2 = copy.deepcopy(sc)
             sc2["seed"] = sc["seed"] + 1
+            sc2["seed_kind"] = "int"
             c = run_digest(sc2, junk=1)
             res.count("probe.other_seed_compared")
             if not c.get("error") and first_difference(a, c) is None:
